@@ -62,6 +62,9 @@ type Machine struct {
 	nowT     *Term
 	inInit   int
 	uniq     []uniqEntry
+	aeadLog  []aeadEnc
+	zoneOff  map[*Node]*Term
+	locOff   map[*Node]*Term
 	context  string // nd.Context: the swept case, part of panic fingerprints
 }
 
@@ -285,6 +288,12 @@ func (m *Machine) global(g *ssa.Global) *Node {
 	n.elems[0] = m.zero(g.Type().(*types.Pointer).Elem())
 	if strings.HasSuffix(g.Type().String(), "logger.Logger") {
 		n.elems[0] = Ptr{node: m.logNode(), idx: 0}
+	}
+	if g.Pkg != nil && g.Pkg.Pkg.Path() == "time" && g.Name() == "Local" {
+		// time's init is not run: Local has to be a non-nil location distinct from UTC (nil / &utcLoc)
+		if ll, ok := g.Pkg.Members["localLoc"].(*ssa.Global); ok {
+			n.elems[0] = Ptr{node: m.global(ll), idx: 0}
+		}
 	}
 	m.globals[g] = n
 	if pp := g.Pkg.Pkg.Path(); g.Pkg != nil && !m.inited[g.Pkg] && initPkg(pp) {
